@@ -15,6 +15,8 @@ import AfkakProofs.Crc.AgreeResp2
 import AfkakProofs.Crc.Alloc
 import AfkakProofs.Crc.Wrapped
 import AfkakProofs.Crc.Refetch
+import AfkakProofs.Crc.AnyPosition
+import AfkakProofs.Crc.RefetchDelivery
 import AfkakProps.Open.C12
 /-!
 # C12 — corrupted or truncated message data is never delivered; decoding is linear
@@ -127,6 +129,38 @@ theorem C12_burst_any_position_counterexample : ¬ Open.C12_burst_any_position :
   rw [hc] at this
   cases this
 
+/-- **The part of `C12_burst_any_position` that holds — stated exactly.**  A non-zero burst of span
+    ≤ 32 bits (the FULL 32, any window position `k` counted over the whole message, any message
+    length) is detected whenever it does not straddle the boundary between the stored CRC word and
+    the checksummed bytes: it leaves bytes 0..3 alone (then it is a burst of the checksummed region,
+    `C12_burst`) or it leaves everything after them alone (`C12_crc_field_error`).  The excluded
+    situation — the window covers the last `32 - t` bits of the stored word and the first `t` bits of
+    the magic byte.. with set bits on both sides — is the one of the counterexample above. -/
+theorem C12_burst_any_position_partial (inner : List UInt8 → SetOut) (gz : Gz) (off : Int)
+    (msg e : List UInt8) (k : Nat)
+    (hcrc : crcOk msg = true) (hel : e.length = msg.length) (hnz : nonzero e = true)
+    (hw : burstWithin e k 32 = true)
+    (hns : ((e.take 4).all (fun b => b == 0) || (e.drop 4).all (fun b => b == 0)) = true) :
+    ∃ c, decodeMessage inner gz (some (xorBytes msg e)) off = .out [] (some .checksum) c 0 :=
+  ⟨_, decodeMessage_burst_nonstraddling inner gz off msg e k hcrc hel hnz hw hns⟩
+
+/-- non-vacuity: a full 32-bit burst (bits 83..114: 0x08 in byte 10 .. 0x04 in byte 14) in the
+    checksummed region of the 27-byte message of the counterexample satisfies every hypothesis,
+    and so does a 32-bit alteration of the stored word alone. -/
+example :
+    let msg : List UInt8 := [0x49, 0x95, 0xe6, 0x5e, 0x01, 0x00, 0, 0, 0, 0, 0, 0, 0, 0,
+      0xff, 0xff, 0xff, 0xff, 0, 0, 0, 5, 0, 0, 0, 0, 0]
+    let e : List UInt8 := [0, 0, 0, 0, 0, 0, 0, 0, 0, 0, 0x08, 0x5a, 0xa5, 0x3c, 0x04,
+      0, 0, 0, 0, 0, 0, 0, 0, 0, 0, 0, 0]
+    let e' : List UInt8 := [0x01, 0x22, 0x33, 0x80, 0, 0, 0, 0, 0, 0, 0, 0, 0, 0, 0,
+      0, 0, 0, 0, 0, 0, 0, 0, 0, 0, 0, 0]
+    crcOk msg = true ∧ e.length = msg.length ∧ nonzero e = true ∧ burstWithin e 83 32 = true ∧
+    burstWithin e 84 31 = false ∧
+    ((e.take 4).all (fun b => b == 0) || (e.drop 4).all (fun b => b == 0)) = true ∧
+    e'.length = msg.length ∧ nonzero e' = true ∧ burstWithin e' 0 32 = true ∧
+    ((e'.take 4).all (fun b => b == 0) || (e'.drop 4).all (fun b => b == 0)) = true := by
+  decide +kernel
+
 /-! ## (b) truncation -/
 
 /-- **Truncation.**  Iterating the first `c` bytes of an encoded set of plain messages yields
@@ -235,6 +269,55 @@ theorem C12_refetch_model (cfg : Afkak.Consumer.Cfg) (inner : Afkak.Consumer.Ops
         | some _ => some (Afkak.Consumer.handleFetchResponse cfg inner k { msgs := [], tail := .small } s).bufferSize
         | none => none) = true :=
   consumer_refetchOk cfg inner k s hr hb offs c hc
+
+/-- **The other half of `refetchOk`, on the consumer model as it runs** (`stepCore` hands
+    `handleFetchResponse` the re-entrant API `opsN cfg cfg.depth`): a running consumer with no block
+    in progress receives a reply that ends normally and holds complete messages with ascending
+    offsets from its fetch position on.  Whatever the processor does with them — including
+    re-entrant `stop()`, `commit()`, `shutdown()` at any nesting depth `n` — afterwards the fetch
+    position is right after the last of them and the buffer size is unchanged: the cut message is
+    fetched again with the same buffer, nothing is skipped.  This is the statement of
+    `Open.C12_refetch_after_delivery` with `inner := opsN cfg n` (and two hypotheses fewer). -/
+theorem C12_refetch_after_delivery_model (cfg : Afkak.Consumer.Cfg) (n k : Nat) (s : Afkak.Consumer.St)
+    (m : Afkak.Consumer.Msg) (ms : List Afkak.Consumer.Msg)
+    (hr : s.startD = .pending) (hb : s.msgBlock = false)
+    (hp : ((m :: ms).map (·.off)).Pairwise (· < ·)) (hf : s.fetchOffset ≤ m.off) :
+    let s' := Afkak.Consumer.handleFetchResponse cfg (Afkak.Consumer.opsN cfg n) k { msgs := m :: ms, tail := .done } s
+    refetchOk ((m :: ms).map (·.off)) (ms.length + 1) s.fetchOffset s'.fetchOffset s.bufferSize cfg.bufMax 1
+      (some s'.bufferSize) = true :=
+  consumer_refetch_after_delivery_opsN cfg n k s m ms hr hb hp hf
+
+/-- The same for EVERY re-entrant API whose four entry points leave `fetch_offset` and `buffer_size`
+    alone while no request is outstanding (`OpsK`; `opsN_k` below shows the model's own API at every
+    depth is one).  This is the part of `Open.C12_refetch_after_delivery` that holds. -/
+theorem C12_refetch_after_delivery_partial (cfg : Afkak.Consumer.Cfg) (inner : Afkak.Consumer.Ops)
+    (hin : OpsK inner) (k : Nat) (s : Afkak.Consumer.St)
+    (m : Afkak.Consumer.Msg) (ms : List Afkak.Consumer.Msg)
+    (hr : s.startD = .pending) (hb : s.msgBlock = false)
+    (hp : ((m :: ms).map (·.off)).Pairwise (· < ·)) (hf : s.fetchOffset ≤ m.off) :
+    let s' := Afkak.Consumer.handleFetchResponse cfg inner k { msgs := m :: ms, tail := .done } s
+    refetchOk ((m :: ms).map (·.off)) (ms.length + 1) s.fetchOffset s'.fetchOffset s.bufferSize cfg.bufMax 1
+      (some s'.bufferSize) = true :=
+  consumer_refetch_after_delivery cfg inner hin k s m ms hr hb hp hf
+
+/-- non-vacuity of the hypothesis `OpsK`: the API the model runs with satisfies it at every depth -/
+example (cfg : Afkak.Consumer.Cfg) (n : Nat) : OpsK (Afkak.Consumer.opsN cfg n) := opsN_k cfg n
+
+/-- As stated — for an ARBITRARY `inner : Ops` — `Open.C12_refetch_after_delivery` is false: `Ops` is
+    any four functions on states, e.g. a `stop` that rewinds the fetch position.  That is not afkak's
+    API (nothing reachable from `stop()`/`commit()`/`shutdown()` assigns `_fetch_offset` or
+    `buffer_size` while `_request_d` is clear: `opsN_k`), so this is a too-strong statement, not a
+    defect: processor script `[stop]`, reply `[offset 0]`, position afterwards -7 instead of 1. -/
+theorem C12_refetch_after_delivery_counterexample : ¬ Open.C12_refetch_after_delivery := by
+  intro h
+  have := h { group := false, autoN := 0, autoS := 0, bufInit := 10, bufMax := none, retryInit := 1,
+              retryMax := 1, maxAttempts := 0, reset := none }
+    { stop := fun s => { s with fetchOffset := -7 }, stopCore := fun s => s, commit := fun s => s,
+      shutdown := fun s => s } 0
+    { startD := .pending, retryDelay := 1, bufferSize := 10, script := [{ acts := [.stop], res := .ok }] }
+    { off := 0, pid := 0 } [] rfl rfl rfl rfl (by simp) (by decide)
+  revert this
+  decide +kernel
 
 /-- Without a maximum the buffer is multiplied by the source's factor for the current size
     (`c12GrowFactorSmall` up to `c12GrowThreshold`, `c12GrowFactor` above), which is at least 2. -/
@@ -566,6 +649,7 @@ C12_burst_in_set
 C12_burst_in_set_wrapped
 C12_burst_monitor
 C12_burst_any_position_counterexample
+C12_burst_any_position_partial
 C12_truncate
 C12_truncate_monitor
 C12_truncate_wrapped
@@ -576,6 +660,9 @@ C12_grow
 C12_grow_factors
 C12_grow_is_consumer_grow
 C12_refetch_model
+C12_refetch_after_delivery_model
+C12_refetch_after_delivery_partial
+C12_refetch_after_delivery_counterexample
 C12_linear_readers
 C12_linear_api_versions
 C12_linear_produce
